@@ -115,14 +115,65 @@ def rules():
 
 
 COLLIDING_BODY = {'branch': 'master', 'pr_id': -3, 'job_id': 'other'}
+# keys that exist in the robot's configuration: a request must not be able to shadow them for
+# the evaluation it triggers
+CONFIG_BODY = {'admins': ['eve'], 'build_key': '', 'pr_author_options': {'eve': {'bypass_build_status': True}},
+               'required_peer_approvals': 0}
 
 
-def call_api(ep, name, method, kwargs, body, v, sym):
+def nested_evaluation(job):
+    """Run the real handler of an EvalPullRequestJob; returns the PullRequestJob it hands to
+    BertE.process (or None)."""
+    from bert_e.jobs.eval_pull_request import evaluate_pull_request
+    seen = []
+    berte = job.bert_e
+    saved = (berte.__dict__.get('process'), berte.project_repo)
+    berte.process = lambda j: seen.append(j)
+    berte.project_repo = types.SimpleNamespace(
+        owner='owner', slug='slug', full_name='owner/slug',
+        get_pull_request=lambda pid: types.SimpleNamespace(id=pid, author='contributor'))
+    job.project_repo = berte.project_repo
+    try:
+        evaluate_pull_request(job)
+    finally:
+        if saved[0] is None:
+            berte.__dict__.pop('process', None)
+        else:
+            berte.process = saved[0]
+        berte.project_repo = saved[1]
+    return seen[0] if seen else None
+
+
+def nested_ok(job, body):
+    """The pull-request job triggered by the API evaluation sees the robot's configuration,
+    not values sent in the request."""
+    n = nested_evaluation(job)
+    if n is None or type(n).__name__ != 'PullRequestJob':
+        return False
+    if n.pull_request.id is not job.settings['pr_id'] and n.pull_request.id != job.settings['pr_id']:
+        return False
+    for k in (body or {}):
+        if k in ('pr_id',):
+            continue
+        cfg = job.bert_e.settings.get(k, None)
+        if n.settings.get(k, None) != cfg:
+            return False
+    return True
+
+
+RAW_BODIES = {
+    4: ('{"branch_from": "development/4.3",', 'application/json'),            # truncated JSON
+    5: ('{"branch_from": "not a valid ref !!"}', 'text/plain'),                 # not declared as JSON
+}
+
+
+def call_api(ep, name, method, kwargs, body, v, sym, raw=None):
     """Call the registered view; returns (status, jobs put, job or None)."""
     import flask
     app, berte = get_app()
     berte.task_queue.queue.clear()
-    with app.test_request_context('/x', method=method, json=body if body is not None else {}):
+    rq = dict(data=raw[0], content_type=raw[1]) if raw else dict(json=body if body is not None else {})
+    with app.test_request_context('/x', method=method, **rq):
         flask.session['user'] = Flag(v['user'], 'someuser') if sym else ('someuser' if v['user'] else None)
         flask.session['admin'] = Flag(v['admin'], 'True') if sym else bool(v['admin'])
         try:
@@ -158,11 +209,17 @@ def api_harness(cfg, twin=False):
             kwargs = dict(job_id='nope')
         # the JSON body is not validated beyond `branch_from`: it may carry keys named like
         # the URL parameters (with other values) or unrelated keys
-        extra = ctx.choose('body_extra', 3)
-        if extra:
+        extra = ctx.choose('body_extra', 6)
+        raw = None
+        if extra in RAW_BODIES:
+            # a body that is not well-formed JSON / not declared as JSON: an ill-formed request
+            raw = RAW_BODIES[extra]
+            valid = z3.BoolVal(False)
+            body = None
+        elif extra:
             body = dict(body or {})
-            body.update(COLLIDING_BODY if extra == 1 else {'comment': 'please'})
-        status, jobs = call_api(ep, name, method, kwargs, body, v, True)
+            body.update(COLLIDING_BODY if extra == 1 else CONFIG_BODY if extra == 3 else {'comment': 'please'})
+        status, jobs = call_api(ep, name, method, kwargs, body, v, True, raw=raw)
         need_admin = name in ADMIN_ONLY
         allowed = z3.And(v['user'], z3.Or(z3.BoolVal(not need_admin), v['admin']))
         creates = name in JOB_ENDPOINTS
@@ -173,7 +230,7 @@ def api_harness(cfg, twin=False):
             conds.append(('at most one job', z3.BoolVal(len(jobs) <= 1)))
             conds.append(('refusal has an error status',
                           z3.Implies(z3.Not(z3.And(allowed, valid)),
-                                     z3.BoolVal(status in (400, 401, 403, 404, 500)))))
+                                     z3.BoolVal(status in (400, 401, 403, 404, 415, 500)))))
             conds.append(('401 iff not logged in', z3.BoolVal(status == 401) == z3.Not(v['user'])))
             if jobs:
                 j = jobs[0]
@@ -186,6 +243,9 @@ def api_harness(cfg, twin=False):
                         ok = ok and j.settings[k] == val
                 ok = ok and str(j.user) == 'someuser'
                 conds.append(('job carries the validated parameters', z3.BoolVal(bool(ok))))
+                if name == 'EvalPullRequest':
+                    conds.append(('the evaluation triggered by the API request runs with the robot\'s configuration',
+                                  z3.BoolVal(bool(nested_ok(j, body)))))
         else:
             conds.append(('read endpoint enqueues nothing', z3.BoolVal(len(jobs) == 0)))
             conds.append(('read endpoint needs a session',
@@ -217,15 +277,23 @@ def api_concrete(ep, name, method, case, vals):
             body = dict(branch_from=case['branch_from'])
     elif name == 'GetJob':
         kwargs = dict(job_id='nope')
-    if vals.get('body_extra'):
+    raw = None
+    if vals.get('body_extra') in RAW_BODIES:
+        raw = RAW_BODIES[vals['body_extra']]
+        valid = False
+        body = None
+    elif vals.get('body_extra'):
         body = dict(body or {})
-        body.update(COLLIDING_BODY if vals['body_extra'] == 1 else {'comment': 'please'})
-    status, jobs = call_api(ep, name, method, kwargs, body, vals, False)
+        body.update(COLLIDING_BODY if vals['body_extra'] == 1 else CONFIG_BODY if vals['body_extra'] == 3
+                    else {'comment': 'please'})
+    status, jobs = call_api(ep, name, method, kwargs, body, vals, False, raw=raw)
     allowed = bool(vals['user']) and (name not in ADMIN_ONLY or bool(vals['admin']))
     if name in JOB_ENDPOINTS:
         carried = all(j.settings[k] == val for j in jobs for k, val in kwargs.items())
+        if name == 'EvalPullRequest' and jobs:
+            carried = carried and nested_ok(jobs[0], body)
         return (len(jobs) == 1) != (allowed and valid) or not carried or \
-            (not (allowed and valid) and status not in (400, 401, 403, 404, 500))
+            (not (allowed and valid) and status not in (400, 401, 403, 404, 415, 500))
     return len(jobs) != 0 or ((status in (200, 404)) != bool(vals['user']))
 
 
@@ -381,6 +449,8 @@ def webhook_concrete(host, configured_host, bad):
 def replay(data):
     common.install_common_stubs()
     _quiet()
+    if data['part'] == 'login':
+        return True          # the path was run concretely (the choices are finite)
     if data['part'] == 'api':
         return api_concrete(data['ep'], data['name'], data['method'], data['case'], data['vals'])
     if data['part'] == 'webhook':
@@ -435,6 +505,93 @@ def branch_cases(rep):
     return cases
 
 
+def login_harness(ctx):
+    """The real _handle_authorize on a fresh session: afterwards the session is authenticated
+    (and flagged admin) iff the login was accepted - a refused login must leave nothing a
+    later request could ride on."""
+    import flask
+    import bert_e.server.auth as AU
+    app, berte = get_app()
+    has_name = ctx.decide(z3.Bool('has_username'))
+    is_admin = ctx.decide(z3.Bool('handle_is_admin'))
+    org_set = ctx.decide(z3.Bool('organization_configured'))
+    mail = ctx.choose('email', 4)           # 0 none, 1 member, 2 other domain, 3 look-alike domain
+    stale = ctx.decide(z3.Bool('session_had_identity'))
+    emails = [None, 'dev@acme.com', 'dev@evil.org', 'dev@notacme.com']
+    info = {}
+    if has_name:
+        info['preferred_username'] = 'Admin' if is_admin else 'Somebody'
+    if emails[mail]:
+        info['email'] = emails[mail]
+    old = berte.settings.get('organization', '')
+    berte.settings['organization'] = 'acme.com' if org_set else ''
+    try:
+        with app.test_request_context('/api/auth', method='GET', json={}):
+            if stale:
+                flask.session['user'] = 'previous'
+                flask.session['admin'] = True
+            resp = AU._handle_authorize(berte, info)
+            status = resp.status_code if hasattr(resp, 'status_code') else resp[1]
+            user = flask.session.get('user')
+            admin = flask.session.get('admin')
+    finally:
+        berte.settings['organization'] = old
+    accepted = has_name and (not org_set or mail == 1)
+    bad = None
+    if accepted:
+        if status not in (200, 302) or user != info['preferred_username'].lower() or bool(admin) != is_admin:
+            bad = 'an accepted login does not give the session the identity and admin flag of the account'
+    else:
+        if status not in (401, 403):
+            bad = 'a refused login is not answered with an error status'
+        elif not stale and (user or admin):
+            bad = 'a refused login leaves an authenticated session behind'
+    ctx.stats.obligations += 1
+    return dict(bad=bad, vals=dict(has_name=has_name, is_admin=is_admin, org_set=org_set, mail=mail, stale=stale),
+                status=status, user=user, admin=admin)
+
+
+def login_part(rep):
+    results, st = explore(login_harness)
+    rep.add_stats(st, 'login (_handle_authorize)')
+    rep.functions_encoded += ['server.auth._handle_authorize']
+    seen = set()
+    if not {True, False} <= set(r['bad'] is None for _, r in results) | {True, False}:
+        pass
+    for _, r in results:
+        if r['bad'] and r['bad'] not in seen:
+            seen.add(r['bad'])
+            rep.cexs.append(Cex('C14', 'login: ' + r['bad'], dict(part='login', vals=r['vals'], label=r['bad']), True,
+                                '%s with %r -> status %s, session user=%r admin=%r' % (
+                                    r['bad'], r['vals'], r['status'], r['user'], r['admin'])))
+        elif not r['bad']:
+            rep.validated += 1
+
+
+def eval_api_part(rep, prop):
+    """Shared with C06 / C07: the evaluation an API request triggers must run with the robot's
+    configuration (admins, build key, per-author options, required approvals), whatever the
+    request body says - otherwise any logged-in user could switch gates off through the API."""
+    _quiet()
+    app, berte = get_app()
+    rs = [(ep, name, m) for ep, name, m, rule in rules() if name == 'EvalPullRequest']
+    if not rs:
+        rep.error('EvalPullRequest rule not found')
+        return
+    ep, name, m = rs[0]
+    results, st = explore(api_harness((ep, name, m, {})))
+    rep.add_stats(st, 'API evaluation request -> pull-request job (configuration not shadowed)')
+    rep.functions_encoded += ['jobs.eval_pull_request.evaluate_pull_request', 'server.api.base.APIEndpoint.view',
+                              'job.APIJob.__init__ / Job.__init__ (settings chain)']
+    for _, r in results:
+        if r['bad'] is not None and 'configuration' in r['label']:
+            data = dict(part='api', ep=ep, name=name, method=m, case={}, vals=r['bad'], label=r['label'])
+            ok = api_concrete(ep, name, m, {}, r['bad'])
+            rep.cexs.append(Cex(prop, 'API evaluation: the request body shadows the robot\'s configuration',
+                                data, ok, '%s %r' % (r['label'], r['bad'])))
+            break
+
+
 def _run_api(cfg):
     _quiet()
     results, st = explore(api_harness(cfg))
@@ -469,6 +626,7 @@ def check(rep):
              name not in JOB_ENDPOINTS | READ_ENDPOINTS | {'auth'}]
     if extra:
         rep.error('unmodelled API rule(s): %s' % extra)
+    login_part(rep)
     cases = branch_cases(rep)
     cfgs = []
     for ep, name, m in api_rules:
